@@ -57,6 +57,18 @@ func noTrace(x *Exec, pre resSnap, what string) error {
 	return nil
 }
 
+// pointerData: n bytes of 8-byte little-endian words, each the number of a block in the data region.
+func pointerData(diskSize uint64, n uint64) []byte {
+	b := make([]byte, n)
+	for i := uint64(0); i+8 <= n; i += 8 {
+		v := 1540 + (i/8*7)%(diskSize-1540)
+		for k := uint64(0); k < 8; k++ {
+			b[i+k] = byte(v >> (8 * k))
+		}
+	}
+	return b
+}
+
 // ---- the nearly exhausted inode table: built once per process ----
 
 var inodeFullOnce sync.Once
@@ -245,7 +257,13 @@ func runFullDiskCase(t *rapid.T, fc fullCfg) {
 		// appends and writes just past the direct blocks (needs an indirect block as well)
 		off := pick(t, []uint64{f.Size, f.Size, 0, f.Size + BlockSize, 8 * BlockSize, 7 * BlockSize, 9 * BlockSize, 520 * BlockSize, 519 * BlockSize, 1031 * BlockSize}, "off")
 		cnt := uint32(pick(t, []int{1, 100, 4096, 4097, 8192, 3 * 4096, 20 * 4096, 70 * 4096, 480 * 4096}, "cnt"))
-		return x.Write(LiveRef(f), off, patternData(g.nextTag(), uint64(cnt)), cnt, pick(t, g.Cfg.Stable, "stable"))
+		data := patternData(g.nextTag(), uint64(cnt))
+		if rapid.IntRange(0, 4).Draw(t, "pointerlike") == 0 {
+			// data that reads like an index block (valid block numbers): a dangling index pointer to a block
+			// that now belongs to this file then leads a reader to other files' blocks instead of a crash
+			data = pointerData(d.Size(), uint64(cnt))
+		}
+		return x.Write(LiveRef(f), off, data, cnt, pick(t, g.Cfg.Stable, "stable"))
 	})
 	acts["write2"] = acts["write"]
 	acts["setattr"] = wrap("SETATTR", func(t *rapid.T) error {
@@ -541,7 +559,7 @@ func TestC04Full(t *testing.T) {
 // C12 on nearly-full disks: foreign or stale bytes, and free blocks that are not zero.
 func TestC12Full(t *testing.T) {
 	rapid.Check(t, func(t *rapid.T) {
-		runFullDiskCase(t, fullCfg{Prop: "C12", Fsck: FsckOpts{ZeroFree: true},
+		runFullDiskCase(t, fullCfg{Prop: "C12", Fsck: FsckOpts{ZeroFree: true}, ReadHoles: true,
 			Relevant: func(err error) bool {
 				return errKind(err) == "data-exposed" || (errKind(err) == "fsck" && strings.Contains(err.Error(), "[free-not-zero]"))
 			}})
